@@ -539,6 +539,14 @@ struct TemplateCore {
                                 break;
                             }
 
+                            case TagType::Loop: {
+                                // A '}' closed the frame of a loop (opened inside {if ...} or {svar:...}): the
+                                // loop is no longer the current one, and it may be dropped later with the tag
+                                // that holds it.
+                                loop_tag = tag_bit->GetLoopTag().Parent;
+                                break;
+                            }
+
                             default: {
                             }
                         }
